@@ -21,9 +21,10 @@ go build ./... && go test -vet=off -count=1 ./... > /tmp/seeded_base_$ID.log 2>&
 mv /tmp/seeded_demo_$ID.go seeded_demo_test.go
 echo "--- baseline suite with the change: exit $BASE"
 go test -vet=off -count=1 -run 'TestSeededDemo' . > /tmp/seeded_with_$ID.log 2>&1; WITH=$?
-git stash -q -- $(git diff --name-only -- . ':!seeded_demo_test.go')
+# (no git stash: the stash is shared between all worktrees of a repository)
+git checkout -- $(git diff --name-only -- . ':!seeded_demo_test.go')
 go test -vet=off -count=1 -run 'TestSeededDemo' . > /tmp/seeded_without_$ID.log 2>&1; WITHOUT=$?
-git stash pop -q
+git apply $OUT/patch.diff
 echo "--- demo with the change: exit $WITH (want != 0); without: exit $WITHOUT (want 0)"
 # run the checks against /repo with the patch applied
 cd /repo || exit 2
